@@ -343,7 +343,7 @@ func exitsOf(g *Graph) []exitPoint {
 		}
 	}
 	for _, rp := range g.classifyReturns() {
-		at := posOf(rp.Ret)
+		at := retPos(rp)
 		out = append(out, exitPoint{At: at, Instr: rp.Ret, Success: rp.Class == RetSuccess, Desc: "return", Pred: rp.Pred})
 	}
 	return out
@@ -417,7 +417,7 @@ func c01Deployed(o *OpCtx, r *Report, creator *ssa.Function, leaf ssa.CallInstru
 		if rp.Class != RetSuccess {
 			continue
 		}
-		to := posOf(rp.Ret)
+		to := retPos(rp)
 		ok := len(upd) > 0
 		if ok {
 			ex, _ := eg.PathExists(entryPos(o.entry), to, avoidInstrs(upd...))
@@ -757,7 +757,7 @@ func c01CreateVerb(w *World, r *Report) {
 					continue
 				}
 				if rp.Class == RetSuccess {
-					if ex, _ := g.PathExists(entryPos(sc), posOf(rp.Ret), avoidInstrs(creates...)); ex {
+					if ex, _ := g.PathExists(entryPos(sc), retPos(rp), avoidInstrs(creates...)); ex {
 						ok = false
 					}
 				}
@@ -1156,11 +1156,11 @@ func c01Purge(w *World, r *Report, ef *Effects) {
 			continue
 		}
 		// only returns reachable after the history was read successfully
-		if ex, _ := g.PathExists(posOf(hist), posOf(rp.Ret), Avoid{}.withEdges(errEdges...)); !ex {
+		if ex, _ := g.PathExists(posOf(hist), retPos(rp), Avoid{}.withEdges(errEdges...)); !ex {
 			continue
 		}
 		n++
-		ex, _ := g.PathExists(posOf(hist), posOf(rp.Ret), Avoid{}.withEdges(errEdges...).withInstrs(purges...))
+		ex, _ := g.PathExists(posOf(hist), retPos(rp), Avoid{}.withEdges(errEdges...).withInstrs(purges...))
 		r.Check(!ex && len(purges) > 0, "C01/PURGE", fmt.Sprintf("uninstall/return#%d", i), w.InstrPos(rp.Ret),
 			"this success return is reached only through purgeReleases(history…)", "uninstall without keep-history can report success without purging the history")
 	}
